@@ -15,7 +15,8 @@ from vf.rigs.env import Env
 from vf.rigs.fakes3 import cerr
 from vf.runner import Ob
 
-DAMAGE = ["missing", "empty", "garbage_bytes", "garbage_digit", "legacy_current", "legacy_higher", "names_missing_higher", "names_missing_same",
+DAMAGE = ["missing", "empty", "garbage_bytes", "garbage_digit", "legacy_current", "legacy_higher", "legacy_lower", "legacy_zero", "names_missing_higher",
+          "names_missing_same", "names_missing_lower",
           "whitespace_valid", "valid", "stale"]
 ACTIONS = ["open", "create", "append", "gc", "append_then_lose_pointer_again"]
 EVENTS_L = ["none", "failed_commit", "fence_lost", "interrupted_commit"]
@@ -149,6 +150,12 @@ def recovery(sp, rig="L", event="none", damages=None):
                 st.write_file(HINT, str(ver0).encode())
             elif damage == "legacy_higher":
                 st.write_file(HINT, str(ver0 + 5).encode())
+            elif damage == "legacy_lower":
+                st.write_file(HINT, str(max(ver0 - 2, 1)).encode())
+            elif damage == "legacy_zero":
+                st.write_file(HINT, b"0")
+            elif damage == "names_missing_lower":
+                st.write_file(HINT, f"v{max(ver0 - 1, 1)}-00000000.metadata.json".encode())
             elif damage == "names_missing_higher":
                 st.write_file(HINT, f"v{ver0 + 1}-deadbeef.metadata.json".encode())
             elif damage == "names_missing_same":
